@@ -54,8 +54,14 @@ impl Which {
             Which::C06 => {
                 o.builtin = 70;
                 o.fallible = false;
+                o.marker_chance = 110;
+                o.eps_weight = 40;
+                o.max_nts = 4;
             }
-            Which::C07 => {}
+            Which::C07 => {
+                o.marker_chance = 60;
+                o.eps_weight = 30;
+            }
             Which::C08 => {}
         }
         o
@@ -271,7 +277,15 @@ fn tok_render(t: &InTok) -> String {
 }
 
 /// The whole pipeline on a set of tapes. Returns the failures found per tape.
-fn evaluate(ctx: &Ctx, which: Which, tapes: &[Vec<u8>], name: &str, ck: Option<&mut Checker>, scale: usize) -> Vec<Vec<Fail>> {
+fn evaluate(
+    ctx: &Ctx,
+    which: Which,
+    tapes: &[Vec<u8>],
+    name: &str,
+    ck: Option<&mut Checker>,
+    scale: usize,
+    focus: Option<Vec<(Algo, bool)>>,
+) -> Vec<Vec<Fail>> {
     let mut dummy = Checker::new(ctx.clone(), "exploration", "");
     let count = ck.is_some();
     let ck: &mut Checker = match ck {
@@ -295,7 +309,7 @@ fn evaluate(ctx: &Ctx, which: Which, tapes: &[Vec<u8>], name: &str, ck: Option<&
     if dbg {
         eprintln!("[{:?}] built {} cases", t0.elapsed(), cases.len());
     }
-    let vars = variants(which, ctx.tier == crate::core::Tier::Quick);
+    let vars = focus.unwrap_or_else(|| variants(which, ctx.tier == crate::core::Tier::Quick));
     let mut units = vec![];
     for (gi, c) in cases.iter().enumerate() {
         let Ok(c) = c else {
@@ -321,6 +335,9 @@ fn evaluate(ctx: &Ctx, which: Which, tapes: &[Vec<u8>], name: &str, ck: Option<&
     let batch = Batch::build(ctx, name, units);
     if dbg {
         eprintln!("[{:?}] batch built", t0.elapsed());
+        for (m, e) in &batch.compile_errors {
+            eprintln!("COMPILE ERROR in {m}:\n{e}");
+        }
     }
     if let Some(e) = &batch.infra_error {
         ck.infra(format!("batch: {e}"));
@@ -766,7 +783,7 @@ fn evaluate(ctx: &Ctx, which: Which, tapes: &[Vec<u8>], name: &str, ck: Option<&
     fails
 }
 
-fn shrink(ctx: &Ctx, which: Which, tape_in: &[u8], sig: &str, rounds: usize) -> (Vec<u8>, Option<Fail>) {
+fn shrink(ctx: &Ctx, which: Which, tape_in: &[u8], sig: &str, rounds: usize, focus: Option<Vec<(Algo, bool)>>) -> (Vec<u8>, Option<Fail>) {
     let mut cur = tape_in.to_vec();
     let mut best: Option<Fail> = None;
     for round in 0..rounds {
@@ -799,7 +816,7 @@ fn shrink(ctx: &Ctx, which: Which, tape_in: &[u8], sig: &str, rounds: usize) -> 
         if cands.is_empty() {
             break;
         }
-        let res = evaluate(ctx, which, &cands, &format!("shrink{round}"), None, 1);
+        let res = evaluate(ctx, which, &cands, &format!("shrink{round}"), None, 1, focus.clone());
         let mut improved = false;
         let mut order: Vec<usize> = (0..cands.len()).collect();
         order.sort_by_key(|&i| (cands[i].len(), cands[i].iter().map(|b| *b as usize).sum::<usize>()));
@@ -843,7 +860,7 @@ fn replay_case(ctx: &Ctx, which: Which, ck: &mut Checker, v: &Value) {
             return;
         }
     }
-    let fails = evaluate(ctx, which, &[tape], "replay", None, 2);
+    let fails = evaluate(ctx, which, &[tape], "replay", None, 2, None);
     ck.eval();
     let want = v["signature"].as_str().unwrap_or("");
     for f in &fails[0] {
@@ -878,7 +895,7 @@ pub fn run(ctx: Ctx, replay: Option<PathBuf>, which: Which) -> i32 {
     let tapes = tape::sample_tapes(ctx.seed, n_grammars, 24, 220);
     let mut first_per_sig: BTreeMap<String, (Vec<u8>, Fail)> = BTreeMap::new();
     for (ci, part) in tapes.chunks(chunk).enumerate() {
-        let fails = evaluate(&ctx, which, part, &format!("batch{ci}"), Some(&mut ck), scale);
+        let fails = evaluate(&ctx, which, part, &format!("batch{ci}"), Some(&mut ck), scale, None);
         for (i, fs) in fails.into_iter().enumerate() {
             for f in fs {
                 if ck.is_known(&f.sig) {
@@ -896,7 +913,21 @@ pub fn run(ctx: Ctx, replay: Option<PathBuf>, which: Which) -> i32 {
     let budget_sigs = 3;
     for (k, (sig, (tp, f))) in first_per_sig.into_iter().enumerate() {
         if k < budget_sigs {
-            let (small, best) = shrink(&ctx, which, &tp, &sig, ctx.tier.pick(6, 12));
+            // shrink with only the configuration(s) the failure was seen in
+            let focus = {
+                let algo = match f.replay["algo"].as_str() {
+                    Some("lr1") => Algo::Lr1,
+                    Some("lalr") => Algo::Lalr,
+                    _ => Algo::Lane,
+                };
+                let asc = f.replay["ascent"].as_bool().unwrap_or(false);
+                if which == Which::C07 {
+                    Some(vec![(algo, false), (algo, true)])
+                } else {
+                    Some(vec![(algo, asc)])
+                }
+            };
+            let (small, best) = shrink(&ctx, which, &tp, &sig, ctx.tier.pick(8, 16), focus);
             let f = best.unwrap_or(f);
             let mut rp = f.replay.clone();
             rp["shrunk_from_tape_len"] = json!(tp.len());
